@@ -880,16 +880,19 @@ class MultipleTableCoordinate(BaseTableCoordinate):
         if isinstance(item, (slice, Integral)):
             item = (item,)
 
-        if not len(item) == self.n_inputs:
+        # Each table takes as many items as it has array dimensions (a SkyCoord that is not meshed
+        # has two components but the array dimensions of the SkyCoord itself).
+        n_array_dims = sum(t.ndim for t in self._table_coords)
+        if not len(item) == n_array_dims:
             raise ValueError(
-                f"length of the slice ({len(item)}) must match the number of coordinates {self.n_inputs}")
+                f"length of the slice ({len(item)}) must match the number of array dimensions {n_array_dims}")
 
         new_tables = []
         dropped_tables = []
         i = 0
         for table in self._table_coords:
-            tslice = item[i:i+table.n_inputs]
-            i += table.n_inputs
+            tslice = item[i:i+table.ndim]
+            i += table.ndim
             new_table = table[tslice]
             if new_table.is_scalar():
                 dropped_tables.append(new_table)
